@@ -66,6 +66,9 @@ BAD_OPTS = {
     'bad_type_bool': ('send_hup', 'yes'),
     'bad_value_uid': ('uid', 'no-such-user-xyz'),
     'bad_value_gid': ('gid', 'no-such-group-xyz'),
+    'bad_value_uid_number': ('uid', 54321),
+    'bad_value_gid_number': ('gid', 54321),
+    'bad_value_uid_numeric_string': ('uid', '54321'),
     'bad_value_hook': ('hooks', {'before_start': 'no.such.module.fn'}),
     'bad_value_hook_name': ('hooks', {'no_such_hook': 'os.getpid'}),
     'bad_type_stop_signal': ('stop_signal', 'TERM!!'),
